@@ -49,11 +49,36 @@ fn pattern(n: usize, seed: u64) -> Vec<u8> {
 /// ASCII query of exactly `n >= 1` bytes: '/' then lower-case letters.
 fn qpattern(n: usize, seed: u64) -> Vec<u8> {
     let mut v = Vec::with_capacity(n);
+    if n == 0 {
+        return v;
+    }
+    // 1 in 5: non-ASCII (valid UTF-8, two bytes per character; an odd length gets one ASCII letter more)
+    if seed % 5 == 2 && n >= 3 {
+        v.push(b'/');
+        while v.len() + 2 <= n {
+            v.extend_from_slice("é".as_bytes());
+        }
+        if v.len() < n {
+            v.push(b'z');
+        }
+        return v;
+    }
     v.push(b'/');
     for i in 1..n {
         v.push(b'a' + ((seed as usize).wrapping_add(i * 7) % 26) as u8);
     }
     v
+}
+
+/// A handler-chosen response query: 1 in 7 is not valid UTF-8 (a query is bytes on the wire).
+fn own_query_bytes(n: usize, seed: u64) -> Vec<u8> {
+    if seed % 7 == 3 {
+        let mut v = vec![b'/'];
+        v.extend((1..n).map(|i| 0x80u8 | ((seed as usize + i) % 64) as u8));
+        v.truncate(n);
+        return v;
+    }
+    qpattern(n, seed)
 }
 
 /// Custom erased handler: the request body says how large the response's query and body are.
@@ -71,7 +96,7 @@ impl HandlerErased for Blob {
         body.extend_from_slice(&pattern(b, s));
         let mut bld = Message::builder().id(req.header.id).query_format_code(1).body_format_code(0).body_bytes(body);
         if q > 0 {
-            bld = bld.query_bytes(qpattern(q, s));
+            bld = bld.query_bytes(own_query_bytes(q, s));
         }
         let mut m = bld.build();
         if req.body.len() == 32 {
@@ -205,6 +230,8 @@ struct World {
     #[allow(dead_code)]
     limit: Option<usize>,
     srv: RawConn,
+    /// a second peer of the same server: a broadcast must be guarded for each peer on its own
+    srv2: RawConn,
     proxy: RawConn,
     registry: PeerRegistry,
     reports: Reports,
@@ -228,6 +255,8 @@ async fn make_world(cfg: &str, upstream: SocketAddr) -> Result<World, String> {
     let limit = cfg_effective(cfg).flatten();
     // an embedder-driven accept loop (`into_shared` + `accept` + `serve_connection`) for some worlds
     let shared_path = cfg == "4096" || cfg == "u";
+    // the other public ways of serving: by configuration, so that a replay builds the same world
+    let serve_mode = match cfg { "1024" | "200" => 2, "65536" | "-" => 1, _ => 0 };
     // --- real WebSocket server
     let reports: Reports = Arc::new(Mutex::new(Vec::new()));
     let registry = PeerRegistry::new();
@@ -268,6 +297,10 @@ async fn make_world(cfg: &str, upstream: SocketAddr) -> Result<World, String> {
                             }
                         });
                     }
+                } else if serve_mode == 1 {
+                    let _ = server.serve_listener_with_shutdown(l, "/repe/", std::future::pending::<()>()).await;
+                } else if serve_mode == 2 {
+                    let _ = server.serve_listener_with_graceful_drain(l, "repe", std::future::pending::<()>(), Duration::from_secs(5)).await;
                 } else {
                     let _ = server.serve_listener(l, "/repe").await;
                 }
@@ -341,11 +374,14 @@ async fn make_world(cfg: &str, upstream: SocketAddr) -> Result<World, String> {
     if cfg_mismatch.load(std::sync::atomic::Ordering::SeqCst) {
         return Err("SharedWebSocketServer::limits() is not the configured value".into());
     }
-    let mut w = World { limit, srv: RawConn::connect(srv_addr).await?, proxy: RawConn::connect(proxy_addr).await?, registry, reports, client, seen, next_id: 1 << 40 };
+    let mut w = World { limit, srv: RawConn::connect(srv_addr).await?, srv2: RawConn::connect(srv_addr).await?, proxy: RawConn::connect(proxy_addr).await?, registry, reports, client, seen, next_id: 1 << 40 };
     // one round trip on each connection: the server's connect hooks (registry insert) have run
     let id = w.fresh();
     w.srv.send(&RawFrame::request(id, false, 1, b"/ping", 2, b"null")).await?;
     w.srv.recv_until(id).await?;
+    let id = w.fresh();
+    w.srv2.send(&RawFrame::request(id, false, 1, b"/ping", 2, b"null")).await?;
+    w.srv2.recv_until(id).await?;
     let id = w.fresh();
     w.proxy.send(&RawFrame::request(id, false, 1, b"/ping", 2, b"null")).await?;
     w.proxy.recv_until(id).await?;
@@ -374,7 +410,7 @@ struct Spec {
     blen: usize,
 }
 
-const FRAME_PATHS: &[&str] = &["inline", "off", "joff", "push", "pushoff", "pushn", "bcast", "proxy"];
+const FRAME_PATHS: &[&str] = &["inline", "off", "joff", "push", "pushoff", "pushn", "bcast", "bcastj", "bcastu", "proxy"];
 
 fn route_of(path: &str) -> &'static str {
     match path {
@@ -396,6 +432,12 @@ fn cfg_limits(cfg: &str) -> Option<WebSocketLimits> {
         "d" => None,
         "u" => Some(WebSocketLimits::unlimited()),
         "-" => Some(WebSocketLimits::default().with_assumed_peer_frame_limit(None)),
+        n if n.contains(',') => {
+            // `N,F,M`: assumed peer limit N with incoming frame / message limits F / M (`-` = none)
+            let p: Vec<&str> = n.split(',').collect();
+            let o = |x: &str| if x == "-" { None } else { Some(x.parse::<usize>().expect("limit")) };
+            Some(WebSocketLimits::default().with_max_incoming_frame_size(o(p[1])).with_max_incoming_message_size(o(p[2])).with_assumed_peer_frame_limit(o(p[0])))
+        }
         n => Some(WebSocketLimits::default().with_assumed_peer_frame_limit(Some(n.parse().expect("limit")))),
     }
 }
@@ -405,8 +447,26 @@ fn cfg_effective(cfg: &str) -> Option<Option<usize>> {
     match cfg {
         "d" => Some(Some(repe::DEFAULT_MAX_FRAME_SIZE)),
         "u" | "-" => Some(None),
+        n if n.contains(',') => { let a = n.split(',').next().unwrap(); if a == "-" { Some(None) } else { a.parse::<usize>().ok().map(Some) } }
         n => n.parse::<usize>().ok().map(Some),
     }
+}
+
+const CLIENT_KINDS: &[&str] = &["call", "notify", "cjson", "cjsont", "ctyped", "cbeve", "rwrite", "njson", "nbeve", "batch"];
+
+/// Number of characters whose BEVE string encoding is `blen` bytes long, if there is one.
+fn beve_chars(blen: usize) -> usize {
+    for hdr in [2usize, 3, 5, 9] {
+        if blen >= hdr && beve_len(blen - hdr) == blen {
+            return blen - hdr;
+        }
+    }
+    0
+}
+
+/// Length of the BEVE encoding of a string of `n` one-byte characters (tag, compressed size, bytes).
+fn beve_len(n: usize) -> usize {
+    1 + if n < 64 { 1 } else if n < 16384 { 2 } else if n < (1 << 30) { 4 } else { 8 } + n
 }
 
 fn lim_str(l: Option<usize>) -> String {
@@ -424,7 +484,8 @@ async fn run_frame(w: &mut World, s: &Spec) -> CaseResult {
     let path = s.kind.as_str();
     let seed = fnv(s.idx.as_bytes());
     let intended = 48 + s.qlen + s.blen;
-    let is_notify = matches!(path, "push" | "pushoff" | "pushn" | "bcast");
+    let is_notify = matches!(path, "push" | "pushoff" | "pushn" | "bcast" | "bcastj" | "bcastu");
+    let is_bcast = path.starts_with("bcast");
     // 1 in 4 of the handler-made responses is an error response of the handler's own
     let own_ec: u32 = if matches!(path, "inline" | "off" | "proxy") && seed % 4 == 0 { if seed % 8 == 0 { 4096 } else { 5 } } else { 0 };
     let mut fails: Vec<(String, String)> = Vec::new();
@@ -436,7 +497,9 @@ async fn run_frame(w: &mut World, s: &Spec) -> CaseResult {
     let own_query = !is_notify && path != "joff" && s.qlen != route.len();
     let (exp_query, exp_body, exp_bfmt): (Vec<u8>, Vec<u8>, u16) = match path {
         "joff" => (route.as_bytes().to_vec(), { let mut b = vec![b'"']; b.extend(std::iter::repeat(b'x').take(s.blen - 2)); b.push(b'"'); b }, 2),
-        "inline" | "off" | "proxy" => (if own_query { qpattern(s.qlen, seed) } else { route.as_bytes().to_vec() }, pattern(s.blen, seed), 0),
+        "inline" | "off" | "proxy" => (if own_query { own_query_bytes(s.qlen, seed) } else { route.as_bytes().to_vec() }, pattern(s.blen, seed), 0),
+        "bcastj" => (qpattern(s.qlen, seed), { let mut b = vec![b'"']; b.extend(std::iter::repeat(b'x').take(s.blen - 2)); b.push(b'"'); b }, 2),
+        "bcastu" => (qpattern(s.qlen, seed), vec![b'u'; s.blen], 3),
         _ => (qpattern(s.qlen, seed), pattern(s.blen, seed), 0),
     };
     let mut expected = RawFrame::request(if is_notify { 0 } else { s.id }, is_notify, 1, &exp_query, exp_bfmt, &exp_body);
@@ -485,10 +548,14 @@ async fn run_frame(w: &mut World, s: &Spec) -> CaseResult {
                     return Err(format!("push request {} answered id {} ec {} body {}", rid, r.h.id, r.h.ec, String::from_utf8_lossy(&r.body[..r.body.len().min(60)])));
                 }
             }
-            "bcast" => {
+            "bcast" | "bcastj" | "bcastu" => {
                 let method = String::from_utf8(exp_query.clone()).unwrap();
-                let res = w.registry.broadcast_notify_raw(&method, BodyFormat::RawBinary, &exp_body);
-                if res.len() != 1 || !res.values().all(|r| r.is_ok()) {
+                let res = match path {
+                    "bcastj" => w.registry.broadcast_notify_json(&method, &"x".repeat(s.blen - 2)).map_err(|e| format!("broadcast_notify_json: {e}"))?,
+                    "bcastu" => w.registry.broadcast_notify_utf8(&method, "u".repeat(s.blen)),
+                    _ => w.registry.broadcast_notify_raw(&method, BodyFormat::RawBinary, &exp_body),
+                };
+                if res.len() != 2 || !res.values().all(|r| r.is_ok()) {
                     return Err(format!("broadcast reached {} peers, results {:?}", res.len(), res.values().collect::<Vec<_>>()));
                 }
             }
@@ -527,7 +594,30 @@ async fn run_frame(w: &mut World, s: &Spec) -> CaseResult {
             }
         }
     }
-    let sizes = if conn_is_proxy { w.proxy.sizes.clone() } else { w.srv.sizes.clone() };
+    // the second peer of a broadcast: same bytes or same refusal
+    let mut delivered2: Vec<RawFrame> = Vec::new();
+    if is_bcast && !broken {
+        w.srv2.sizes.clear();
+        let pid = w.fresh();
+        let r: Result<(), String> = async {
+            w.srv2.send(&RawFrame::request(pid, false, 1, b"/ping", 2, b"null")).await?;
+            let (others, pong) = recv_answer(&mut w.srv2, pid).await?;
+            delivered2 = others;
+            if pong.h.id != pid || pong.h.ec != 0 {
+                return Err(format!("second peer's follow-up answered id {} ec {}", pong.h.id, pong.h.ec));
+            }
+            Ok(())
+        }
+        .await;
+        if let Err(e) = r {
+            fail(&mut fails, "connection", format!("{}: second peer: {}", s.idx, e));
+            broken = true;
+        }
+    }
+    let mut sizes = if conn_is_proxy { w.proxy.sizes.clone() } else { w.srv.sizes.clone() };
+    if is_bcast {
+        sizes.extend(w.srv2.sizes.iter().cloned());
+    }
     let reports = w.reports.lock().unwrap().clone();
     // the two small pushes around the sized one on the `pushn` path
     let chaff: Vec<RawFrame> = delivered.iter().filter(|f| f.h.notify != 0 && (f.query == b"/c1" || f.query == b"/c2")).cloned().collect();
@@ -584,6 +674,9 @@ async fn run_frame(w: &mut World, s: &Spec) -> CaseResult {
                 Some(b) => fail(&mut fails, "changed", format!("{}: a {}-byte message at or below the limit {} was not delivered unchanged (got {} bytes)", s.idx, intended, lim_str(s.limit), b.len())),
                 None => fail(&mut fails, "changed", format!("{}: a {}-byte message at or below the limit {} was not delivered", s.idx, intended, lim_str(s.limit))),
             }
+            if is_bcast && delivered2.iter().map(|f| f.to_vec()).collect::<Vec<_>>() != vec![expected_bytes.clone()] {
+                fail(&mut fails, "changed", format!("{}: the second peer of the broadcast did not get the {}-byte notification unchanged ({} frame(s))", s.idx, intended, delivered2.len()));
+            }
             if !reports.is_empty() {
                 fail(&mut fails, "spurious_report", format!("{}: OutboundTooLarge reported for a message within the limit", s.idx));
             }
@@ -607,9 +700,14 @@ async fn run_frame(w: &mut World, s: &Spec) -> CaseResult {
                     fail(&mut fails, "replacement.notify", format!("{}: replacement has notify {}", s.idx, f.h.notify));
                 }
             }
+            if is_bcast && !delivered2.is_empty() {
+                fail(&mut fails, "notify_not_dropped", format!("{}: an oversized broadcast ({} > {}) reached the second peer", s.idx, intended, l));
+            }
             if !conn_is_proxy {
                 let want = (String::from_utf8_lossy(&exp_query).to_string(), intended, l);
-                if reports.len() != 1 || reports[0] != want {
+                // a query that is not UTF-8 has no method *name*: only size and limit are compared then
+                let same = |r: &(String, usize, usize)| (r.1, r.2) == (want.1, want.2) && (std::str::from_utf8(&exp_query).is_err() || r.0 == want.0);
+                if reports.len() != (if is_bcast { 2 } else { 1 }) || !reports.iter().all(same) {
                     fail(&mut fails, "not_reported", format!("{}: refusal of a {}-byte message (limit {}) reported as {:?}", s.idx, intended, l, reports));
                 }
             }
@@ -627,12 +725,40 @@ async fn run_client(w: &mut World, s: &Spec) -> CaseResult {
     let mut broken = false;
     let fail = |fails: &mut Vec<(String, String)>, k: &str, d: String| fails.push((format!("limits.client_{}.{}", kind, k), d));
     let path = String::from_utf8(qpattern(s.qlen, seed)).unwrap();
-    let body = pattern(s.blen, seed);
+    let is_notify = kind.starts_with('n');
+    // what the API puts in the body, computed here (not taken from the crate): raw bytes, a JSON string, a BEVE string
+    let text = "x".repeat(match kind { "cbeve" | "nbeve" => beve_chars(s.blen), "call" | "notify" => 0, _ => s.blen.saturating_sub(2) });
+    let (body, bfmt): (Vec<u8>, u16) = match kind {
+        "call" | "notify" => (pattern(s.blen, seed), 0),
+        "cbeve" | "nbeve" => (beve::to_vec(&text).unwrap(), 1),
+        _ => (serde_json::to_vec(&text).unwrap(), 2),
+    };
+    debug_assert_eq!(body.len(), s.blen);
     w.seen.lock().unwrap().clear();
-    let res: Result<Result<(), RepeError>, ()> = if kind == "call" {
-        tokio::time::timeout(WATCHDOG, w.client.call_with_formats(&path, 1, Some(&body), 0)).await.map(|r| r.map(|_| ())).map_err(|_| ())
-    } else {
-        tokio::time::timeout(WATCHDOG, w.client.notify_with_formats(&path, 1, Some(&body), 0)).await.map_err(|_| ())
+    let mut neighbours_ok = true;
+    let res: Result<Result<(), RepeError>, ()> = match kind {
+        "call" => tokio::time::timeout(WATCHDOG, w.client.call_with_formats(&path, 1, Some(&body), 0)).await.map(|r| r.map(|_| ())).map_err(|_| ()),
+        "notify" => tokio::time::timeout(WATCHDOG, w.client.notify_with_formats(&path, 1, Some(&body), 0)).await.map_err(|_| ()),
+        "cjson" => tokio::time::timeout(WATCHDOG, w.client.call_json(&path, &text)).await.map(|r| r.map(|_| ())).map_err(|_| ()),
+        "cjsont" => tokio::time::timeout(WATCHDOG, w.client.call_json_with_timeout(&path, &text, Duration::from_secs(35))).await.map(|r| r.map(|_| ())).map_err(|_| ()),
+        "ctyped" => tokio::time::timeout(WATCHDOG, w.client.call_typed_json::<_, _, Value>(&path, &text)).await.map(|r| r.map(|_| ())).map_err(|_| ()),
+        "cbeve" => tokio::time::timeout(WATCHDOG, w.client.call_typed_beve::<_, _, Value>(&path, &text)).await.map(|r| r.map(|_| ())).map_err(|_| ()),
+        "rwrite" => tokio::time::timeout(WATCHDOG, w.client.registry_write_json(&path, &text)).await.map(|r| r.map(|_| ())).map_err(|_| ()),
+        "njson" => tokio::time::timeout(WATCHDOG, w.client.notify_json(&path, &text)).await.map_err(|_| ()),
+        "nbeve" => tokio::time::timeout(WATCHDOG, w.client.notify_typed_beve(&path, &text)).await.map_err(|_| ()),
+        "batch" => {
+            // three calls at once on the same client: a small one, the sized one, a small one
+            let reqs = vec![("/c1".to_string(), json!(1)), (path.clone(), json!(text)), ("/c2".to_string(), json!(2))];
+            match tokio::time::timeout(WATCHDOG, w.client.batch_json(reqs)).await {
+                Ok(mut v) if v.len() == 3 => {
+                    neighbours_ok = v[0].is_ok() && v[2].is_ok();
+                    Ok(v.remove(1).map(|_| ()))
+                }
+                Ok(_) => Ok(Err(RepeError::Io(std::io::Error::other("batch result count")))),
+                Err(_) => Err(()),
+            }
+        }
+        _ => Ok(Err(RepeError::Io(std::io::Error::other("unknown client kind")))),
     };
     // one more request on the same client
     let follow = tokio::time::timeout(WATCHDOG, w.client.call_with_formats("/ping", 1, Some(b"null"), 2)).await;
@@ -649,7 +775,11 @@ async fn run_client(w: &mut World, s: &Spec) -> CaseResult {
     }
     let seen: Vec<Vec<u8>> = std::mem::take(&mut *w.seen.lock().unwrap());
     // messages of this op = everything seen except the follow-up ping
-    let mine: Vec<&Vec<u8>> = seen.iter().filter(|b| RawFrame::parse_prefix(b).map(|(f, _)| f.query != b"/ping").unwrap_or(true)).collect();
+    let chaff = seen.iter().filter(|b| RawFrame::parse_prefix(b).map(|(f, _)| f.query == b"/c1" || f.query == b"/c2").unwrap_or(false)).count();
+    if kind == "batch" && (!neighbours_ok || chaff != 2) && !broken {
+        fail(&mut fails, "neighbours", format!("{}: the two small calls batched with the sized one: both ok = {}, {} of 2 reached the peer", s.idx, neighbours_ok, chaff));
+    }
+    let mine: Vec<&Vec<u8>> = seen.iter().filter(|b| RawFrame::parse_prefix(b).map(|(f, _)| f.query != b"/ping" && f.query != b"/c1" && f.query != b"/c2").unwrap_or(true)).collect();
     let class = match &res {
         Ok(Ok(())) => "ok".to_string(),
         Ok(Err(RepeError::MessageTooLarge { size, limit })) => format!("MessageTooLarge {} {}", size, limit),
@@ -685,8 +815,8 @@ async fn run_client(w: &mut World, s: &Spec) -> CaseResult {
         let ok = mine.len() == 1 && {
             match RawFrame::parse_prefix(mine[0]) {
                 Some((f, n)) if n == mine[0].len() => {
-                    let mut e = RawFrame::request(f.h.id, kind == "notify", 1, path.as_bytes(), 0, &body);
-                    e.h.notify = (kind == "notify") as u8;
+                    let mut e = RawFrame::request(f.h.id, is_notify, 1, path.as_bytes(), bfmt, &body);
+                    e.h.notify = is_notify as u8;
                     e.to_vec() == *mine[0]
                 }
                 _ => false,
@@ -703,7 +833,10 @@ async fn run_client(w: &mut World, s: &Spec) -> CaseResult {
 // generator
 // ------------------------------------------------------------------------------------------------
 fn gen_specs(rng: &mut Rng, thorough: bool) -> Vec<Spec> {
-    let mut cfgs: Vec<String> = ["1024", "4096", "65536", "1048576", "-", "u", "d"].iter().map(|s| s.to_string()).collect();
+    // `200`: about the smallest limit that can carry the error reply; `64`: client kinds only (a smaller
+    // limit than the reply is outside the property's premise on the server side); usize::MAX; incoming
+    // limits below / without bound next to the assumed one
+    let mut cfgs: Vec<String> = ["1024", "4096", "65536", "1048576", "-", "u", "d", "200", "64", "18446744073709551615", "4096,100000,200000", "1024,-,-"].iter().map(|s| s.to_string()).collect();
     if thorough {
         cfgs.extend(["16777216", "300", "100000"].iter().map(|s| s.to_string()));
     }
@@ -713,7 +846,11 @@ fn gen_specs(rng: &mut Rng, thorough: bool) -> Vec<Spec> {
     let mut id = 1000u64;
     for (li, (cfg, lim)) in limits.iter().enumerate() {
         let mut specs = Vec::new();
-        let mut kinds: Vec<&str> = FRAME_PATHS.iter().cloned().chain(["call", "notify"]).collect();
+        let mut kinds: Vec<&str> = FRAME_PATHS.iter().cloned().chain(CLIENT_KINDS.iter().cloned()).collect();
+        let extra_cfg = li >= 7;
+        if cfg == "64" {
+            kinds = CLIENT_KINDS.to_vec();
+        }
         // endpoints built without any limits guard at 16 MiB: a few frames right at that boundary per path
         let heavy = cfg == "d";
         if heavy && !thorough {
@@ -721,7 +858,22 @@ fn gen_specs(rng: &mut Rng, thorough: bool) -> Vec<Spec> {
         }
         for k in kinds {
             let mut totals: Vec<usize> = Vec::new();
+            // the first outbound paths get the full size set; API twins and the extra configurations a light one
+            let light = extra_cfg || !matches!(k, "inline" | "off" | "joff" | "push" | "pushoff" | "pushn" | "bcast" | "proxy" | "call" | "notify");
             match lim {
+                Some(l) if light && !heavy => {
+                    if *l < (1 << 40) {
+                        totals.extend([l - 1, *l, l + 1]);
+                        totals.push(rng.range(60.min(*l as u64), (2 * *l as u64).max(100)) as usize);
+                    } else {
+                        totals.push(rng.range(60, 100_000) as usize);
+                        totals.push(rng.range(60, 300) as usize);
+                    }
+                }
+                None if light => {
+                    totals.push(rng.range(60, 300) as usize);
+                    totals.push(rng.range(300, 200_000) as usize);
+                }
                 Some(l) if heavy => {
                     totals.push(*l);
                     totals.push(l + 1);
@@ -771,18 +923,38 @@ fn gen_specs(rng: &mut Rng, thorough: bool) -> Vec<Spec> {
                             _ => rng.range(1, 64.min((t - 48).max(1)) as u64) as usize,
                         }
                     }
-                    _ => match rng.below(4) {
+                    _ => match rng.below(if t > 48 { 8 } else { 1 }) {
                         0 => 1,
+                        7 => 0, // empty method / path
                         1 => rng.range(1, 256.min((t - 48).max(1)) as u64) as usize,
                         _ => rng.range(1, 24.min((t - 48).max(1)) as u64) as usize,
                     },
                 };
-                let min_b = if k == "joff" { 2 } else { 0 };
+                let min_b = if matches!(k, "joff" | "bcastj" | "cjson" | "cjsont" | "ctyped" | "rwrite" | "njson" | "batch" | "cbeve" | "nbeve") { 2 } else { 0 };
                 if t < 48 + qlen + min_b {
                     continue;
                 }
+                let (mut qlen, mut blen) = (qlen, t - 48 - qlen);
+                // a BEVE string body cannot have every length (the size prefix grows): move a byte to the path
+                while matches!(k, "cbeve" | "nbeve") && beve_len(beve_chars(blen)) != blen && blen > 2 {
+                    qlen += 1;
+                    blen -= 1;
+                }
+                if heavy && matches!(k, "cbeve" | "nbeve" | "bcastj" | "bcastu" | "batch" | "cjsont" | "ctyped" | "rwrite" | "njson" | "cjson") {
+                    continue;
+                }
                 id += 1;
-                specs.push(Spec { idx: String::new(), kind: k.to_string(), cfg: cfg.clone(), limit: *lim, id, qlen, blen: t - 48 - qlen });
+                // request ids at the ends of the range on the response paths
+                // request ids at the ends of the range on the response paths: one within the limit, one over it
+                let nth = specs.iter().filter(|s: &&Spec| s.kind == k).count();
+                let rid = match (k, nth) {
+                    ("inline", 1) | ("off", 3) | ("proxy", 3) => 0,
+                    ("off", 1) | ("inline", 3) => u64::MAX,
+                    ("proxy", 1) | ("joff", 3) => u64::MAX - 1,
+                    ("joff", 1) => 1,
+                    _ => id,
+                };
+                specs.push(Spec { idx: String::new(), kind: k.to_string(), cfg: cfg.clone(), limit: *lim, id: rid, qlen, blen });
             }
         }
         rng.shuffle(&mut specs);
@@ -801,7 +973,7 @@ fn parse_spec(line: &str) -> Option<Spec> {
         ["frame", idx, path, l, _notify, id, q, b, _rlen] if FRAME_PATHS.contains(path) => {
             Some(Spec { idx: idx.to_string(), kind: path.to_string(), cfg: l.to_string(), limit: lim(l)?, id: id.parse().ok()?, qlen: q.parse().ok()?, blen: b.parse().ok()? })
         }
-        ["client", idx, kind, l, id, q, b] if *kind == "call" || *kind == "notify" => {
+        ["client", idx, kind, l, id, q, b] if CLIENT_KINDS.contains(kind) => {
             Some(Spec { idx: idx.to_string(), kind: kind.to_string(), cfg: l.to_string(), limit: lim(l)?, id: id.parse().ok()?, qlen: q.parse().ok()?, blen: b.parse().ok()? })
         }
         _ => None,
@@ -835,9 +1007,9 @@ fn main() {
                 }
             }
             let w = worlds.get_mut(&s.cfg).unwrap();
-            let provisional = format!("{} {} {} {} {} {}", if s.kind == "call" || s.kind == "notify" { "client" } else { "frame" }, s.idx, s.kind, s.cfg, s.qlen, s.blen);
+            let provisional = format!("{} {} {} {} {} {}", if CLIENT_KINDS.contains(&s.kind.as_str()) { "client" } else { "frame" }, s.idx, s.kind, s.cfg, s.qlen, s.blen);
             out.begin(&provisional);
-            let r = if s.kind == "call" || s.kind == "notify" { run_client(w, s).await } else { run_frame(w, s).await };
+            let r = if CLIENT_KINDS.contains(&s.kind.as_str()) { run_client(w, s).await } else { run_frame(w, s).await };
             let intended = 48 + s.qlen + s.blen;
             let over = s.limit.map(|l| intended > l).unwrap_or(false);
             let near = s.limit.map(|l| (intended as i64 - l as i64).abs() <= 2).unwrap_or(false);
